@@ -10,6 +10,10 @@ NOTES = {
  'C14-r9d-m4': 'outside the quantifier: like C14-r8b-m4 it needs two address pools with different networks sharing one vips directory',
  'C01-r9a-m5': 'unreachable: the stale entry whose removal no longer frees capacity exists only on a server object outside the cell (or for an instance recorded under two known servers at start-up, which the repaired master cannot produce)',
  'C05-r9d-m2': 'a C10 violation rather than a C05 one: the new master dies of its own assertion at start-up, so no cycle completes for C05 to be judged after; ./check C10 reports C10.restartOk for it',
+ 'C01-r10a-m1': 'unreachable: needs an instance recorded under two known servers at start-up (see C01-r4a-m1)',
+ 'C18-r10d-m3': 'outside the statement: the archived events stay retrievable from their snapshots (download_batch, the mechanism C18 names); only the AppTraceLoop reader stops early - readers are modelled as an extension (ext.archive.readLoop, DRIFT class)',
+ 'C08-r10b-m3': 'outside the quantifier: needs the data retention timeout of an ALREADY scheduled manifest to be rewritten, for which the master API has no producer (update_app_priorities rewrites the priority only)',
+ 'C05-r10a-m2': 'not caught: members of an identity group that was deleted and re-created stay pending for ever although identities are free; no clause states that a PENDING member must get a free identity outside the probe situation of C02',
  'C07-r6a-m4': 'outside the statement: only the rank of the ONE instance that straddles the end of its reservation changes - C06 fixes the boosted rank for instances that stay within the reservation, and in the changed queue the evicting instance is ahead of the displaced one',
  'C08-r6b-m5': 'outside the statement: C08 says a frozen server keeps its instances EXCEPT those marked for unscheduling; it does not say a marked instance must go (the author of the change notes the same)',
 }
